@@ -53,13 +53,20 @@ def run(ctx, chk):
                 continue
             for blk in b["blocks"]:
                 t = blk["term"]
-                if "call" in t and t["call"].get("unsafe") and not t.get("macros"):
+                if "call" in t and t["call"].get("unsafe") and not std_formatting(t):
                     unsafe_calls.append((d, t["call"]["def"]))
         allowed = [u for u in unsafe_calls if u[1].endswith("push_unchecked")]
         chk.ob(len(unsafe_calls) == len(allowed), "C17/unsafe/%r" % ([u for u in unsafe_calls if u not in allowed][:2],), "parse() reaches unsafe calls [%s]: %r" % (cfg, unsafe_calls))
     chk.cov["configs"] = cfgs
     chk.cov["traces_validated_against_impl"] = 0
     chk.cov["trusted_base"] = ["rustc MIR", "Vec / mem::swap contracts", "reference machine spec/reassembly.py"]
+
+
+def std_formatting(t):
+    """the one unsafe call the standard formatting macros expand to (`fmt::Arguments::new`); an
+    unsafe call that merely sits inside some macro of the crate's own is not excused"""
+    ms = t.get("macros") or []
+    return bool(ms) and t["call"]["def"].startswith("core::fmt::") and any("format_args" in m for m in ms)
 
 
 def same_state(fsm, c):
